@@ -177,6 +177,8 @@ var (
 	domainTarget   = conn.MustAddrFromDomainPort("example.test", 8080)
 	fallbackTarget = conn.AddrFromIPPort(netip.MustParseAddrPort("192.0.2.80:80"))
 	psk            = []byte("0123456789abcdef")
+	upskAlice      = []byte("alice-upsk-16byt")
+	upskBob        = []byte("bob---upsk-16byt")
 )
 
 func must[T any](v T, err error) T {
@@ -210,6 +212,7 @@ func Scenario(param string) vsched.Scenario {
 			upAddr                                     conn.Addr
 			upPay                                      []byte
 			upSeen                                     bool
+			wantUser                                   string // the user the session must be charged to
 		)
 		switch sp.Dial {
 		case "refused":
@@ -248,6 +251,17 @@ func Scenario(param string) vsched.Scenario {
 			case "ss2022":
 				server = (&ss2022.StreamServerConfig{UserCipherConfig: must(ss2022.NewUserCipherConfig(psk, false))}).NewStreamServer()
 				front = (&ss2022.StreamClientConfig{Name: "f", InnerClient: inner, Addr: tunnelTarget, CipherConfig: must(ss2022.NewClientCipherConfig(psk, nil, false))}).NewStreamClient()
+			}
+			if sp.Server == "ss2022mu" {
+				// multi-user server: the identity key is psk, the client authenticates as bob
+				srv := (&ss2022.StreamServerConfig{IdentityCipherConfig: must(ss2022.NewServerIdentityCipherConfig(psk, false))}).NewStreamServer()
+				srv.ReplaceUserLookupMap(ss2022.UserLookupMap{
+					ss2022.PSKHash(upskAlice): must(ss2022.NewServerUserCipherConfig("alice", upskAlice, false)),
+					ss2022.PSKHash(upskBob):   must(ss2022.NewServerUserCipherConfig("bob", upskBob, false)),
+				})
+				server = srv
+				front = (&ss2022.StreamClientConfig{Name: "f", InnerClient: inner, Addr: tunnelTarget, CipherConfig: must(ss2022.NewClientCipherConfig(upskBob, [][]byte{psk}, false))}).NewStreamClient()
+				wantUser = "bob"
 			}
 			if sp.Server == "ss2022fb" {
 				server = (&ss2022.StreamServerConfig{UserCipherConfig: must(ss2022.NewUserCipherConfig(psk, false)), UnsafeFallbackAddr: fallbackTarget}).NewStreamServer()
@@ -497,15 +511,15 @@ func Scenario(param string) vsched.Scenario {
 				// ends, closes both connections, and charges exactly the bytes it delivered each way
 				up := int64(len(stub.gotPay)) + stub.near.TotalWritten()
 				down := rEnd.TotalWritten()
-				if sp.Server == "ss2022" || sp.Server == "http" || sp.Server == "socks5" {
+				if sp.Server == "ss2022" || sp.Server == "ss2022mu" || sp.Server == "http" || sp.Server == "socks5" {
 					down = -1 // framing/handshake bytes are part of what the relay wrote to the client; checked via the client's view instead
 				}
 				if !bytes.HasPrefix(targetSent, clientGot) {
 					return obs, "client received bytes the target never sent"
 				}
-				want := fmt.Sprintf("/%d/%d", len(clientGot), up)
+				want := fmt.Sprintf("%s/%d/%d", wantUser, len(clientGot), up)
 				if down >= 0 && down != int64(len(clientGot)) {
-					want = fmt.Sprintf("/%d/%d", down, up)
+					want = fmt.Sprintf("%s/%d/%d", wantUser, down, up)
 				}
 				if len(col.calls) != 1 || col.calls[0] != want {
 					return obs, fmt.Sprintf("statistics %v, bytes actually delivered before the destination reset the connection (user/down/up) %s", col.calls, want)
@@ -542,7 +556,7 @@ func Scenario(param string) vsched.Scenario {
 			if sp.Order == "targetFirst" && !strings.HasPrefix(sp.Payload, "eof") && !clientEOFBeforeReply {
 				return obs, "client did not see the target's end-of-stream while the reverse direction was still open"
 			}
-			wantStats := fmt.Sprintf("/%d/%d", len(targetSent), len(clientSent))
+			wantStats := fmt.Sprintf("%s/%d/%d", wantUser, len(targetSent), len(clientSent))
 			if len(col.calls) != 1 || col.calls[0] != wantStats {
 				return obs, fmt.Sprintf("statistics %v, bytes actually delivered (user/down/up) %s", col.calls, wantStats)
 			}
@@ -607,6 +621,15 @@ func Family(thorough bool) []string {
 				}
 				out = append(out, Spec{sv, native, false, "early", "ok", "clientFirst", "domain", cl}.String())
 			}
+		}
+	}
+	// a multi-user SS2022 server: the session is charged to the user whose key opened it
+	for _, pay := range []string{"none", "early"} {
+		for _, order := range []string{"clientFirst", "targetFirst", "targetReset"} {
+			if order == "targetReset" && pay == "none" {
+				continue
+			}
+			out = append(out, Spec{"ss2022mu", true, false, pay, "ok", order, "ip", ""}.String())
 		}
 	}
 	// an SS2022 server with unsafeFallbackAddress: a client that does not speak the protocol is connected to the
